@@ -220,3 +220,7 @@ pub fn verif_poll_rws(sig_full: bool, sig_drop: bool, fut_ready: bool) -> String
 pub fn verif_send_supervisor_evt(cell: &ActorCell) {
     let _ = cell.send_supervisor_evt(SupervisionEvent::ProcessGroupChanged(crate::pg::GroupChangeMessage::Leave("s".into(), "g".into(), vec![])));
 }
+
+pub fn verif_lock_tree() -> std::sync::MutexGuard<'static, ()> {
+    crate::actor::supervision::verif_probe::lock_tree()
+}
